@@ -726,6 +726,7 @@ package connect
 //@   assigns fields(config), mapof(config.CompressionPools), mapvals(config.CompressionPools)
 //@   ensures flat(config.Interceptor) == old(flat(config.Interceptor)) ++ decl(o)
 //@   ensures config.Procedure == old(config.Procedure)   // label: options-never-touch-the-procedure (storedonlyin scan)
+//@   ensures old(config.Protocol) != nil ==> config.Protocol != nil   // label: options-never-unset-the-protocol
 //@ trusted func HandlerOption.applyToHandler(o, config)
 //@   requires config != nil
 //@   assigns fields(config), mapof(config.CompressionPools), mapvals(config.CompressionPools), mapof(config.Codecs), mapvals(config.Codecs)
@@ -736,6 +737,7 @@ package connect
 //@   assigns fields(config), mapof(config.CompressionPools), mapvals(config.CompressionPools)
 //@   ensures flat(config.Interceptor) == old(flat(config.Interceptor)) ++ decl(o)
 //@   ensures config.Procedure == old(config.Procedure)   // label: options-never-touch-the-procedure (storedonlyin scan)
+//@   ensures old(config.Protocol) != nil ==> config.Protocol != nil   // label: options-never-unset-the-protocol
 //@ trusted func Option.applyToHandler(o, config)
 //@   requires config != nil
 //@   assigns fields(config), mapof(config.CompressionPools), mapvals(config.CompressionPools), mapof(config.Codecs), mapvals(config.Codecs)
@@ -753,6 +755,7 @@ package connect
 //@     invariant 0 - 1 <= rangeindex && rangeindex < |o.options| && unfoldDpre(seq(o.options), rangeindex + 1)
 //@     invariant flat(config.Interceptor) == old(flat(config.Interceptor)) ++ dpre(seq(o.options), rangeindex + 1)
 //@     invariant config.Procedure == old(config.Procedure)
+//@     invariant old(config.Protocol) != nil ==> config.Protocol != nil
 //@     decreases |o.options| - rangeindex
 
 //@ func (*optionsOption).applyToHandler(o, config)
@@ -777,6 +780,7 @@ package connect
 //@     invariant 0 - 1 <= rangeindex && rangeindex < |o.options| && unfoldDpre(seq(o.options), rangeindex + 1)
 //@     invariant flat(config.Interceptor) == old(flat(config.Interceptor)) ++ dpre(seq(o.options), rangeindex + 1)
 //@     invariant config.Procedure == old(config.Procedure)
+//@     invariant old(config.Protocol) != nil ==> config.Protocol != nil
 //@     decreases |o.options| - rangeindex
 
 //@ func (*handlerOptionsOption).applyToHandler(o, config)
@@ -811,7 +815,9 @@ package connect
 //@ func (*clientConfig).validate(c) res
 //@   tags C16, C08
 //@   requires c != nil
+//@   assigns nothing
 //@   ensures res != nil ==> asErr(res) == res
+//@   ensures res == nil ==> c.Codec != nil   // label: a-valid-configuration-has-a-codec
 
 // The option lists are applied left to right after the built-in defaults (which declare no interceptors).
 // Spec.Procedure is the canonical path extracted from the procedure / URL; no
@@ -838,10 +844,12 @@ package connect
 //@   nosafety nil
 //@   assigns everything
 //@   ensures err == nil ==> res != nil && flat(res.Interceptor) == dpre(seq(options), |options|)        // label: chain-is-the-flattened-option-list
+//@   ensures err == nil ==> res.Protocol != nil && res.Codec != nil   // label: a-valid-configuration-has-a-protocol-and-a-codec   // tags: C12, C05
 //@   loop rangeindex:
 //@     invariant 0 - 1 <= rangeindex && rangeindex < |options| && unfoldDpre(seq(options), rangeindex + 1)
 //@     invariant flat(config.Interceptor) == dpre(seq(options), rangeindex + 1)
 //@     invariant config.Procedure == callres("extractProtoPath", 1)
+//@     invariant config.Protocol != nil
 //@     decreases |options| - rangeindex
 
 // ---------------------------------------------------------------------------
@@ -2544,3 +2552,124 @@ package connect
 //@   assigns everything
 //@   assert@call((*connectUnaryUnmarshaler).Unmarshal#1): arg1 == msg
 //@   ensures (err == nil) == (callres("(*connectUnaryUnmarshaler).Unmarshal", 1) == nil)   // label: the-unmarshaler's-verdict-is-returned
+
+// client.go: NewClient hands the protocol exactly the configured parameters
+// (C09 read limit, C08 compression, C05 codec) and the URL it was given.
+//@ trusted func protocol.NewClient(p, params) (res, err)
+//@   assigns nothing
+//@   ensures err == nil ==> res != nil
+//@ func NewClient(httpClient, url, options) res
+//@   tags C09, C08, C05, C12
+//@   assigns everything
+//@   ensures res != nil && fresh(res)
+//@   ensures callres("newClientConfig", 1, 1) != nil ==> res.err == callres("newClientConfig", 1, 1)   // label: a-bad-configuration-is-reported-by-every-call
+//@   assert@call(newClientConfig#1): arg0 == url && arg1 == options
+//@   assert@call(protocol.NewClient#1): (let cfg := callres("newClientConfig", 1, 0) in arg1 != nil && arg1.ReadMaxBytes == cfg.ReadMaxBytes && arg1.CompressMinBytes == cfg.CompressMinBytes && arg1.CompressionName == cfg.RequestCompressionName && arg1.Codec == cfg.Codec && arg1.BufferPool == cfg.BufferPool && arg1.HTTPClient == httpClient && arg1.URL == url && arg1.CompressionPools == callres("newReadOnlyCompressionPools", 1) && arg1.Protobuf == callres("(*clientConfig).protobuf", 1))   // label: the-protocol-client-gets-the-configured-limit-compression-codec-and-url
+//@   assert@call(newReadOnlyCompressionPools#1): arg0 == callres("newClientConfig", 1, 0).CompressionPools && arg1 == callres("newClientConfig", 1, 0).CompressionNames
+
+//@ func (*protocolConnect).NewClient(p, params) (res, err)
+//@   tags C05, C12
+//@   requires params != nil
+//@   assigns nothing
+//@   ensures err == nil ==> res != nil && typeis(res, "*connectClient") && fresh(res)
+//@   ensures (err == nil) == (callres("validateRequestURL", 1) == nil)
+//@ func (*protocolGRPC).NewClient(g, params) (res, err)
+//@   tags C05, C12
+//@   requires g != nil && params != nil
+//@   assigns nothing
+//@   ensures err == nil ==> res != nil && typeis(res, "*grpcClient") && fresh(res) && cast(res, "*grpcClient").web == g.web   // label: grpc-web-clients-speak-grpc-web
+//@   ensures (err == nil) == (callres("validateRequestURL", 1) == nil)
+
+//@ func (*clientConfig).protobuf(c) res
+//@   tags C02, C05
+//@   requires c != nil && c.Codec != nil
+//@   assigns nothing
+//@   ensures res != nil
+//@   ensures callres("Codec.Name", 1) == "proto" ==> res == c.Codec   // label: the-configured-proto-codec-is-reused-for-errors
+
+// duplex_http_call.go: closing the response drains and closes the body
+//@ func (*duplexHTTPCall).CloseRead(d) err
+//@   tags C04, C06
+//@   requires d != nil && (d.response != nil ==> d.response.Body != nil)
+//@   assigns everything
+//@   ensures d.response == nil ==> err == nil
+//@ func (*connectUnaryClientConn).CloseResponse(cc) err
+//@   tags C04
+//@   requires cc != nil && cc.duplexCall != nil && (cc.duplexCall.response != nil ==> cc.duplexCall.response.Body != nil)
+//@   assigns everything
+//@   ensures err == callres("(*duplexHTTPCall).CloseRead", 1)
+//@ func (*connectStreamingClientConn).CloseResponse(cc) err
+//@   tags C04
+//@   requires cc != nil && cc.duplexCall != nil && (cc.duplexCall.response != nil ==> cc.duplexCall.response.Body != nil)
+//@   assigns everything
+//@   ensures err == callres("(*duplexHTTPCall).CloseRead", 1)
+//@ func (*grpcClientConn).CloseResponse(cc) err
+//@   tags C04
+//@   requires cc != nil && cc.duplexCall != nil && (cc.duplexCall.response != nil ==> cc.duplexCall.response.Body != nil)
+//@   assigns everything
+//@   ensures err == callres("(*duplexHTTPCall).CloseRead", 1)
+
+// remaining typed views
+//@ func (*ServerStreamForClient).Close(s) err
+//@   tags C04
+//@   requires s != nil && (s.constructErr == nil ==> s.conn != nil)
+//@   assigns everything
+//@   ensures old(s.constructErr) != nil ==> err == old(s.constructErr)
+//@   ensures old(s.constructErr) == nil ==> err == callres("StreamingClientConn.CloseResponse", 1)
+//@ func (*BidiStreamForClient).CloseRequest(b) err
+//@   tags C04
+//@   requires b != nil && (b.err == nil ==> b.conn != nil)
+//@   assigns everything
+//@   ensures old(b.err) != nil ==> err == old(b.err)
+//@   ensures old(b.err) == nil ==> err == callres("StreamingClientConn.CloseRequest", 1)
+//@ func (*BidiStreamForClient).CloseResponse(b) err
+//@   tags C04
+//@   requires b != nil && (b.err == nil ==> b.conn != nil)
+//@   assigns everything
+//@   ensures old(b.err) != nil ==> err == old(b.err)
+//@   ensures old(b.err) == nil ==> err == callres("StreamingClientConn.CloseResponse", 1)
+
+// option.go / compression.go / codec.go: the rest
+//@ func (*codecOption).applyToHandler(o, config)
+//@   tags C05, C12
+//@   requires o != nil && config != nil && config.Codecs != nil
+//@   assigns mapof(config.Codecs), mapvals(config.Codecs)
+//@   ensures o.Codec != nil && callres("Codec.Name", 1) != "" ==> mapdom(config.Codecs, callres("Codec.Name", 2)) && mapval(config.Codecs, callres("Codec.Name", 2)) == o.Codec   // label: the-codec-is-registered-under-its-name
+//@ func (*namedCompressionPools).CommaSeparatedNames(m) res
+//@   tags C08
+//@   requires m != nil
+//@   assigns nothing
+//@   ensures res == m.commaSeparatedNames
+//@ func (*namedCompressionPools).Contains(m, name) res
+//@   tags C08
+//@   requires m != nil
+//@   assigns nothing
+//@   ensures res == mapdom(m.nameToPool, name)
+//@ func (*namedCompressionPools).Get(m, name) res
+//@   tags C08
+//@   requires m != nil
+//@   assigns nothing
+//@   ensures name == "" || name == "identity" ==> res == nil   // label: identity-means-no-pool
+//@   ensures name != "" && name != "identity" && mapdom(m.nameToPool, name) ==> res == mapval(m.nameToPool, name)
+//@   ensures name != "" && name != "identity" && !mapdom(m.nameToPool, name) ==> res == nil
+//@ func (*codecMap).Get(m, name) res
+//@   tags C05, C12
+//@   requires m != nil
+//@   assigns nothing
+//@   ensures mapdom(m.nameToCodec, name) ==> res == mapval(m.nameToCodec, name)
+//@   ensures !mapdom(m.nameToCodec, name) ==> res == nil
+//@ func (*codecMap).Protobuf(m) res
+//@   tags C02, C05
+//@   requires m != nil
+//@   assigns nothing
+//@   ensures !mapdom(m.nameToCodec, "proto") ==> res != nil
+//@   ensures mapdom(m.nameToCodec, "proto") ==> res == mapval(m.nameToCodec, "proto")
+
+//@ trusted func url.ParseRequestURI(rawURL) (res, err)
+//@   assigns nothing
+//@   doc: "ParseRequestURI parses a raw url into a URL structure."
+//@ func validateRequestURL(uri) res
+//@   tags C05, C12
+//@   assigns nothing
+//@   ensures res != nil ==> coded(res) && codeOf(res) == 14   // label: a-bad-url-is-unavailable
+//@   ensures (res == nil) == (callres("url.ParseRequestURI", 1, 1) == nil)
